@@ -18,6 +18,9 @@
 (*     the observed state is adopted, and judging continues.  Property     *)
 (*     clauses: NoPartialPackUsed after every event, and all observation   *)
 (*     clauses on o at the end.                                            *)
+(*   kind = "seq": a sequence of accesses on one long-lived handle over a  *)
+(*     damaged artefact: o (containment of the whole sequence) and         *)
+(*     acc = <<[k, r]>>, judged with RepeatObs (clause RepeatContained).   *)
 (***************************************************************************)
 EXTENDS Ingest, Json, IOUtils
 
@@ -84,7 +87,8 @@ Consume ==
 
 Finish ==
   /\ l = (IF IsTx THEN Len(Ev) + 1 ELSE 1)
-  /\ LET c == ObsClause(ObsOf(T.o))
+  /\ LET c0 == ObsClause(ObsOf(T.o))
+         c == IF c0 = "ok" /\ T.kind = "seq" /\ ~RepeatObs(T.acc) THEN "RepeatContained" ELSE c0
          v == IF verdict = "ok" THEN c ELSE verdict
          f == IF verdict = "ok" /\ c # "ok" THEN l ELSE failAt
      IN PrintT(<<"VERDICT", T.tid, v, f, driftAt>>)
